@@ -13,7 +13,7 @@ MODEL_OP = "reproject (decision logic of reproject_to + whole-pixel-shift regrid
 RULE = ("FITS cubes of 2-4 dims (celestial RA/DEC TAN pair plus WAVE / TIME axes in any axis order, non-square shapes) with unit, "
         "meta and a global coord; targets that are the source grid, shifted by whole pixels (any sign, partly or wholly off the "
         "source), rescaled, axis-permuted or of another physical type, given as WCS, low-level-only WCS or header mapping, with "
-        "shape_out explicit / taken from the target / unavailable; algorithms interpolation, adaptive, exact (2-D celestial "
+        "shape_out explicit (equal to or different from the target's own array shape) / taken from the target / unavailable; algorithms interpolation, adaptive, exact (2-D celestial "
         "only) and an unknown name; with and without return_footprint. Non-trivial = always; distinct = whole case")
 TRUSTED = ["numpy indexing of the source data shifted by whole pixels is the reference for values and footprint",
            "the reproject package performs the regridding (modelled as order-1 interpolation, compared on every case)"]
@@ -46,7 +46,7 @@ def generate(rng, tier):
         shift = [rng.choice([0, 0, 1, -1, 2, -2, rng.choice([6, -6])]) for _ in range(nd)] if kind == "shift" else [0] * nd
         yield {"order": order, "shape": shape, "kind": kind, "algo": algo, "shift": shift, "crpix_seed": rng.randrange(1000),
                "as": rng.choice(["wcs", "wcs", "lowlevel", "header"]),
-               "shape_out": rng.choice(["explicit", "target", "target", "missing", "other"]),
+               "shape_out": rng.choice(["explicit", "target", "target", "missing", "other", "override"]),
                "footprint": rng.random() < 0.5}
 
 
@@ -93,9 +93,11 @@ def run(case):
         t_order = [("FREQ" if a in ("WAVE", "TIME") else a) for a in t_order]
         if nd == 2:
             t_order = ["RA", "DEC"]
-    if case["shape_out"] == "other":
+    if case["shape_out"] in ("other", "override"):
         out_shape = [s + 1 if k == 0 else max(1, s - 1) for k, s in enumerate(shape)]
-    t = make_wcs(t_order, out_shape, case["crpix_seed"], with_shape=case["shape_out"] != "missing")
+    # "override": the target advertises its own array shape (the source's) and a different shape_out is requested
+    own_shape = list(shape) if case["shape_out"] == "override" else list(out_shape)
+    t = make_wcs(t_order, own_shape, case["crpix_seed"], with_shape=case["shape_out"] != "missing")
     if case["kind"] == "other_types" and nd == 2:
         t.wcs.ctype = ["GLON-TAN", "GLAT-TAN"]
         t.wcs.set()
@@ -109,14 +111,14 @@ def run(case):
     elif case["as"] == "header":
         hdr = dict(t.to_header())
         if case["shape_out"] != "missing":
-            for k, s in enumerate(out_shape[::-1]):
+            for k, s in enumerate(own_shape[::-1]):
                 hdr[f"NAXIS{k + 1}"] = s
             hdr["NAXIS"] = nd
         target = hdr
     else:
         target = t
     kw = {"algorithm": case["algo"], "return_footprint": case["footprint"]}
-    if case["shape_out"] in ("explicit", "other"):
+    if case["shape_out"] in ("explicit", "other", "override"):
         kw["shape_out"] = tuple(out_shape)
     # ---- expectations
     src_types = [str(x) for x in w.world_axis_physical_types]
@@ -191,8 +193,8 @@ def run(case):
     res["obs"] = {"status": status, "shape": None if status != "ok" else list(np.asarray(out.data).shape)}
     res["model_req"] = {"op": "reproject", "algo": case["algo"], "srcTypes": src_types, "tgtTypes": tgt_types,
                         "tgtPixDim": nd, "tgtWorldDim": nd, "tgtCelestialOnly": cel_only,
-                        "shapeOut": list(out_shape) if case["shape_out"] in ("explicit", "other") else None,
-                        "tgtArrayShape": None if case["shape_out"] == "missing" else list(out_shape)}
+                        "shapeOut": list(out_shape) if case["shape_out"] in ("explicit", "other", "override") else None,
+                        "tgtArrayShape": None if case["shape_out"] == "missing" else list(own_shape)}
     if case["kind"] in ("same", "shift") and case["algo"] == "interpolation":
         probes = [list(j) for j in np.ndindex(*out_shape)][:200]
         res["model_req"].update({"shift": [-d for d in case["shift"]], "srcShape": list(shape), "probes": probes})
